@@ -8,6 +8,7 @@ import Mathlib.Data.Nat.ModEq
 import Mathlib.Data.Nat.Sqrt
 import Mathlib.Tactic.Zify
 import Mathlib.Tactic.LinearCombination
+import Mathlib.Algebra.Ring.Parity
 namespace Mpir.Root
 open Mpir Mpir.Gen.SqrtTabs
 
@@ -1311,6 +1312,319 @@ theorem adjustDown_spec (k R : Nat) (hk : 0 < k) : ∀ (fuel s : Nat), iroot k R
       have : iroot k R + 1 ≤ s := by omega
       have := Nat.pow_le_pow_left this k
       omega
+
+
+
+/-! ### mpz_perfect_power_p: soundness -/
+
+
+/-- the manual's definition: `op = a^b` for integers `a`, `b` with `b > 1`. -/
+def IsPP (u : Int) : Prop := ∃ (a : Int) (b : Nat), 2 ≤ b ∧ a ^ b = u
+
+/-- from a magnitude `A = Y^b`, `b ≥ 2` (odd if the number is negative) to the signed statement. -/
+theorem isPP_of_mag (u : Int) (Y b : Nat) (hb : 2 ≤ b) (hodd : u < 0 → b % 2 = 1)
+    (h : u.natAbs = Y ^ b) : IsPP u := by
+  rcases lt_or_ge u 0 with hu | hu
+  · refine ⟨-(Y : Int), b, hb, ?_⟩
+    have ho : Odd b := Nat.odd_iff.mpr (hodd hu)
+    rw [Odd.neg_pow ho]
+    have : (u.natAbs : Int) = -u := Int.ofNat_natAbs_of_nonpos (le_of_lt hu)
+    have h2 : ((Y ^ b : Nat) : Int) = -u := by rw [← h]; exact this
+    push_cast at h2; rw [h2]; ring
+  · refine ⟨(Y : Int), b, hb, ?_⟩
+    have : (u.natAbs : Int) = u := Int.natAbs_of_nonneg hu
+    rw [← this, h]; push_cast; rfl
+
+theorem scan1Go_spec : ∀ (fuel a c : Nat), ∃ t, scan1Go fuel a c = c + t ∧ 2 ^ t ∣ a
+  | 0, a, c => ⟨0, by simp [scan1Go], by simp⟩
+  | fuel + 1, a, c => by
+    unfold scan1Go
+    split
+    · next h =>
+      obtain ⟨t, e, d⟩ := scan1Go_spec fuel (a / 2) (c + 1)
+      refine ⟨t + 1, by rw [e]; omega, ?_⟩
+      rw [pow_succ]
+      have : a = a / 2 * 2 := by omega
+      rw [this]; exact Nat.mul_dvd_mul_right d 2
+    · exact ⟨0, by simp, by simp⟩
+
+theorem scan1_spec (a : Nat) : a = 2 ^ scan1 a * (a >>> scan1 a) := by
+  obtain ⟨t, e, d⟩ := scan1Go_spec (bitLen a) a 0
+  unfold scan1
+  rw [e, Nat.zero_add, Nat.shiftRight_eq_div_pow, Nat.mul_div_cancel' d]
+
+theorem stripPrime_spec (p : Nat) : ∀ (fuel a n : Nat), ∃ t, stripPrime p fuel a n = (a / p ^ t, n + t) ∧ p ^ t ∣ a
+  | 0, a, n => ⟨0, by simp [stripPrime], by simp⟩
+  | fuel + 1, a, n => by
+    unfold stripPrime
+    split
+    · next h =>
+      obtain ⟨t, e, d⟩ := stripPrime_spec p fuel (a / p) (n + 1)
+      refine ⟨t + 1, ?_, ?_⟩
+      · rw [e, Nat.div_div_eq_div_mul, pow_succ']; congr 1; omega
+      · rw [pow_succ']
+        have : a = p * (a / p) := (Nat.mul_div_cancel' (Nat.dvd_of_mod_eq_zero h)).symm
+        rw [this]; exact Nat.mul_dvd_mul_left p d
+    · exact ⟨0, by simp, by simp⟩
+
+theorem isprime_facts (t : Nat) (h : isprime t = true) : 2 ≤ t ∧ (t ≠ 2 → t % 2 = 1) := by
+  unfold isprime at h
+  split at h
+  · next hc => simp at h; omega
+  · next hc => omega
+
+theorem pow2P_two_pow (k : Nat) : pow2P (2 ^ k) = true := by
+  unfold pow2P
+  rw [Nat.and_two_pow_sub_one_eq_mod, Nat.mod_self]; rfl
+
+theorem exists_two_pow_mul_odd : ∀ (n : Nat), n ≠ 0 → ∃ k m, m % 2 = 1 ∧ n = 2 ^ k * m := by
+  intro n
+  induction n using Nat.strong_induction_on with
+  | _ n ih =>
+    intro hn
+    by_cases h : n % 2 = 1
+    · exact ⟨0, n, h, by simp⟩
+    · obtain ⟨k, m, hm, e⟩ := ih (n / 2) (by omega) (by omega)
+      exact ⟨k + 1, m, hm, by rw [pow_succ, Nat.mul_assoc, Nat.mul_comm 2, ← Nat.mul_assoc, ← e]; omega⟩
+
+/-- a positive number that fails the `POW2_P` test has an odd divisor `≥ 3`. -/
+theorem odd_divisor_of_not_pow2P (n : Nat) (hn : n ≠ 0) (h : pow2P n = false) :
+    ∃ b, 3 ≤ b ∧ b % 2 = 1 ∧ b ∣ n := by
+  obtain ⟨k, m, hm, e⟩ := exists_two_pow_mul_odd n hn
+  by_cases h1 : m = 1
+  · subst h1; rw [Nat.mul_one] at e; subst e
+    rw [pow2P_two_pow] at h; exact absurd h (by simp)
+  · exact ⟨m, by omega, hm, ⟨2 ^ k, by rw [e, Nat.mul_comm]⟩⟩
+
+
+/-- `exact = mpz_root (q, u2, nth)` under the contract of mpn_rootrem. -/
+theorem rootExact_spec (hrr : RootremSpec) (a nth : Nat) (ha : 0 < a) (hn : 1 ≤ nth) :
+    rootExact a nth = (iroot nth a, decide ((iroot nth a) ^ nth = a)) := by
+  unfold rootExact
+  rw [if_neg (by omega)]
+  by_cases h1 : nth = 1
+  · subst h1; simp [iroot_one]
+  · rw [if_neg h1]
+    obtain ⟨r1, r2, -⟩ := hrr a nth false ha (by omega)
+    generalize rootrem a (limbCount a) nth false = res at *
+    obtain ⟨r, m⟩ := res
+    simp only at r1 r2 ⊢
+    subst r1
+    congr 1
+    by_cases h5 : m = 0
+    · simp [h5, r2.mp h5]
+    · have h6 : ¬ iroot nth a ^ nth = a := fun h => h5 (r2.mpr h)
+      simp [h5, h6]
+
+/-- the root-attempt loops only answer "yes" on an exact prime root (dividing `n2` in the bounded loop). -/
+theorem ppRoots_sound (a : Nat) (bound : Option Nat) : ∀ (fuel nth : Nat), ppRoots a bound fuel nth = true →
+    ∃ m, nth ≤ m ∧ isprime m = true ∧ (∀ n2, bound = some n2 → n2 % m = 0) ∧ (rootExact a m).2 = true
+  | 0, nth, h => by simp [ppRoots] at h
+  | fuel + 1, nth, h => by
+    unfold ppRoots at h
+    cases bound with
+    | none =>
+      simp only at h
+      by_cases hp : isprime nth = true
+      · simp only [hp, Bool.not_true, Bool.false_eq_true, if_false] at h
+        by_cases he : (rootExact a nth).2 = true
+        · exact ⟨nth, Nat.le_refl _, hp, (fun _ h => by cases h), he⟩
+        · have he' : (rootExact a nth).2 = false := by simpa using he
+          generalize rootExact a nth = re at *
+          obtain ⟨q, ex⟩ := re
+          simp only at he' h
+          subst he'
+          simp only [Bool.false_eq_true, if_false] at h
+          split at h
+          · exact absurd h (by simp)
+          · obtain ⟨m, m1, m2, m3, m4⟩ := ppRoots_sound a none fuel (nth + 1) h
+            exact ⟨m, by omega, m2, m3, m4⟩
+      · have hp' : isprime nth = false := by simpa using hp
+        simp only [hp', Bool.not_false, if_true] at h
+        obtain ⟨m, m1, m2, m3, m4⟩ := ppRoots_sound a none fuel (nth + 1) h
+        exact ⟨m, by omega, m2, m3, m4⟩
+    | some n2 =>
+      simp only at h
+      by_cases h1 : nth > n2
+      · rw [if_pos h1] at h; exact absurd h (by simp)
+      · rw [if_neg h1] at h
+        by_cases hc : (!isprime nth || n2 % nth != 0) = true
+        · rw [if_pos hc] at h
+          obtain ⟨m, m1, m2, m3, m4⟩ := ppRoots_sound a (some n2) fuel (nth + 1) h
+          exact ⟨m, by omega, m2, m3, m4⟩
+        · rw [if_neg hc] at h
+          simp only [Bool.or_eq_true, Bool.not_eq_true', bne_iff_ne, ne_eq, not_or, Bool.not_eq_false,
+            Decidable.not_not] at hc
+          by_cases he : (rootExact a nth).2 = true
+          · exact ⟨nth, Nat.le_refl _, hc.1, (fun k hk => by cases hk; exact hc.2), he⟩
+          · have he' : (rootExact a nth).2 = false := by simpa using he
+            generalize rootExact a nth = re at *
+            obtain ⟨q, ex⟩ := re
+            simp only at he' h
+            subst he'
+            simp only [Bool.false_eq_true, if_false] at h
+            split at h
+            · exact absurd h (by simp)
+            · obtain ⟨m, m1, m2, m3, m4⟩ := ppRoots_sound a (some n2) fuel (nth + 1) h
+              exact ⟨m, by omega, m2, m3, m4⟩
+
+theorem ppN2prime_sound (neg : Bool) (a n2 : Nat) (h : ppN2prime neg a n2 = true) :
+    ¬(n2 = 2 ∧ neg = true) ∧ (rootExact a n2).2 = true := by
+  unfold ppN2prime at h
+  split at h
+  · exact absurd h (by simp)
+  · next hc => simp at hc; exact ⟨fun ⟨h1, h2⟩ => by simp [h1, h2] at hc, h⟩
+
+
+/-- the common conclusion: `|u| = y^n2 · t^m` with `m ∣ n2`, `m ≥ 2`, `m` odd if `u < 0`. -/
+theorem isPP_conclude (u : Int) (y t m n2 : Nat) (hm : 2 ≤ m) (hdvd : m ∣ n2)
+    (hodd : u < 0 → m % 2 = 1) (h : u.natAbs = y ^ n2 * t ^ m) : IsPP u := by
+  obtain ⟨c, rfl⟩ := hdvd
+  refine isPP_of_mag u (y ^ c * t) m hm hodd ?_
+  rw [h, mul_pow, ← pow_mul, Nat.mul_comm c m]
+
+theorem rootExact_true (hrr : RootremSpec) (a m : Nat) (ha : 0 < a) (hm : 1 ≤ m)
+    (h : (rootExact a m).2 = true) : a = (iroot m a) ^ m := by
+  rw [rootExact_spec hrr a m ha hm] at h
+  have h' : iroot m a ^ m = a := by simpa using h
+  exact h'.symm
+
+theorem ppFactor_sound (hrr : RootremSpec) (u : Int) (hu : u ≠ 0) : ∀ (ps : List Nat) (a n2 : Nat),
+    (∃ y, u.natAbs = y ^ n2 * a) →
+    match ppFactor (decide (u < 0)) ps a n2 with
+    | .inl b => b = true → IsPP u
+    | .inr (a', n2') => ∃ y, u.natAbs = y ^ n2' * a'
+  | [], a, n2, hinv => by simpa [ppFactor] using hinv
+  | p :: ps, a, n2, hinv => by
+    have hA : u.natAbs ≠ 0 := Int.natAbs_ne_zero.mpr hu
+    unfold ppFactor
+    by_cases h1 : a % p = 0
+    · rw [if_pos h1]
+      by_cases h2 : a % (p * p) ≠ 0
+      · rw [if_pos h2]; simp
+      · rw [if_neg h2]
+        have h2' : a % (p * p) = 0 := by simpa using h2
+        obtain ⟨t, e, d⟩ := stripPrime_spec p (bitLen a) (a / (p * p)) 2
+        rw [e]
+        dsimp only
+        obtain ⟨y, hy⟩ := hinv
+        -- a = p^(2+t) · a'
+        have ha : a = p ^ (2 + t) * (a / (p * p) / p ^ t) := by
+          have e1 : a = p * p * (a / (p * p)) := (Nat.mul_div_cancel' (Nat.dvd_of_mod_eq_zero h2')).symm
+          have e2 : a / (p * p) = p ^ t * (a / (p * p) / p ^ t) := (Nat.mul_div_cancel' d).symm
+          rw [pow_add, pow_two, Nat.mul_assoc, ← e2, ← e1]
+        generalize a / (p * p) / p ^ t = a' at *
+        generalize hn : 2 + t = n at *
+        by_cases h3 : (pow2P n && decide (u < 0)) = true
+        · rw [if_pos h3]; simp
+        · rw [if_neg h3]
+          by_cases h4 : Nat.gcd n2 n = 1
+          · rw [if_pos h4]; simp
+          · rw [if_neg h4]
+            have hg : 2 ≤ Nat.gcd n2 n := by
+              have : 0 < Nat.gcd n2 n := Nat.gcd_pos_of_pos_right _ (by omega)
+              omega
+            -- the new invariant
+            obtain ⟨c1, hc1⟩ := Nat.gcd_dvd_left n2 n
+            obtain ⟨c2, hc2⟩ := Nat.gcd_dvd_right n2 n
+            have hinv' : u.natAbs = (y ^ c1 * p ^ c2) ^ Nat.gcd n2 n * a' := by
+              rw [hy, ha, mul_pow, ← pow_mul, ← pow_mul, Nat.mul_comm c1, Nat.mul_comm c2, ← hc1, ← hc2]
+              ring
+            have ha' : 0 < a' := by
+              rcases Nat.eq_zero_or_pos a' with h0 | h0
+              · rw [h0, Nat.mul_zero] at hinv'; exact absurd hinv' hA
+              · exact h0
+            generalize Nat.gcd n2 n = g at *
+            by_cases h5 : a' = 1
+            · rw [if_pos h5]
+              intro hb
+              simp only [Bool.not_eq_true', Bool.and_eq_false_iff, decide_eq_false_iff_not] at hb
+              subst h5
+              rcases hb with hb | hb
+              · exact isPP_conclude u (y ^ c1 * p ^ c2) 1 g g hg (dvd_refl g) (fun h => absurd h hb)
+                  (by rw [hinv', Nat.one_pow])
+              · obtain ⟨b, b1, b2, b3⟩ := odd_divisor_of_not_pow2P g (by omega) hb
+                exact isPP_conclude u (y ^ c1 * p ^ c2) 1 b g (by omega) b3 (fun _ => b2)
+                  (by rw [hinv', Nat.one_pow])
+            · rw [if_neg h5]
+              by_cases h6 : isprime g = true
+              · rw [if_pos h6]
+                intro hb
+                obtain ⟨n1, n2'⟩ := ppN2prime_sound _ a' g hb
+                obtain ⟨f1, f2⟩ := isprime_facts g h6
+                have hr := rootExact_true hrr a' g ha' (by omega) n2'
+                refine isPP_conclude u (y ^ c1 * p ^ c2) (iroot g a') g g f1 (dvd_refl g) ?_ (by rw [hinv', ← hr])
+                intro hneg
+                exact f2 (fun h2 => n1 ⟨h2, by simpa using hneg⟩)
+              · rw [if_neg h6]
+                exact ppFactor_sound hrr u hu ps a' g ⟨_, hinv'⟩
+    · rw [if_neg h1]
+      exact ppFactor_sound hrr u hu ps a n2 hinv
+
+
+/-- mpz_perfect_power_p never answers "yes" on a number that is not a perfect power (given the contract
+    of mpn_rootrem for the exactness flags). -/
+theorem perfect_power_sound (hrr : RootremSpec) (u : Int) (h : mpzPerfectPowerP u = true) : IsPP u := by
+  unfold mpzPerfectPowerP at h
+  by_cases h0 : u = 0
+  · subst h0; exact ⟨0, 2, by omega, by norm_num⟩
+  · rw [if_neg h0] at h
+    dsimp only at h
+    have hA : u.natAbs ≠ 0 := Int.natAbs_ne_zero.mpr h0
+    have hsc := scan1_spec u.natAbs
+    generalize scan1 u.natAbs = n2 at *
+    by_cases h1 : n2 = 1
+    · rw [if_pos h1] at h; exact absurd h (by simp)
+    · rw [if_neg h1] at h
+      by_cases h2 : (decide (n2 > 1) && pow2P n2 && decide (u < 0)) = true
+      · rw [if_pos h2] at h; exact absurd h (by simp)
+      · rw [if_neg h2] at h
+        have ha2 : 0 < u.natAbs >>> n2 := by
+          rcases Nat.eq_zero_or_pos (u.natAbs >>> n2) with hz | hz
+          · rw [hz, Nat.mul_zero] at hsc; exact absurd hsc hA
+          · exact hz
+        generalize u.natAbs >>> n2 = a2 at *
+        by_cases h3 : isprime n2 = true
+        · rw [if_pos h3] at h
+          obtain ⟨n1, n2'⟩ := ppN2prime_sound _ a2 n2 h
+          obtain ⟨f1, f2⟩ := isprime_facts n2 h3
+          have hr := rootExact_true hrr a2 n2 ha2 (by omega) n2'
+          refine isPP_conclude u 2 (iroot n2 a2) n2 n2 f1 (dvd_refl _) ?_ (by rw [hsc, ← hr])
+          intro hneg
+          exact f2 (fun hh => n1 ⟨hh, by simpa using hneg⟩)
+        · rw [if_neg h3] at h
+          have key := ppFactor_sound hrr u h0 (perfpowPrimes.drop 1) a2 n2 ⟨2, hsc⟩
+          generalize ppFactor (decide (u < 0)) (perfpowPrimes.drop 1) a2 n2 = res at *
+          cases res with
+          | inl b => exact key h
+          | inr pr =>
+            obtain ⟨a3, n3⟩ := pr
+            simp only at key h
+            obtain ⟨y, hy⟩ := key
+            have ha3 : 0 < a3 := by
+              rcases Nat.eq_zero_or_pos a3 with hz | hz
+              · rw [hz, Nat.mul_zero] at hy; exact absurd hy hA
+              · exact hz
+            by_cases h4 : n3 = 0
+            · rw [if_pos h4] at h
+              obtain ⟨m, m1, m2, -, m4⟩ := ppRoots_sound a3 none _ _ h
+              obtain ⟨f1, f2⟩ := isprime_facts m m2
+              have hr := rootExact_true hrr a3 m ha3 (by omega) m4
+              refine isPP_conclude u y (iroot m a3) m n3 f1 (by rw [h4]; exact dvd_zero m) ?_ (by rw [hy, ← hr])
+              intro hneg
+              have : decide (u < 0) = true := by simpa using hneg
+              rw [this] at m1
+              exact f2 (by simp at m1; omega)
+            · rw [if_neg h4] at h
+              obtain ⟨m, m1, m2, m3, m4⟩ := ppRoots_sound a3 (some n3) _ _ h
+              obtain ⟨f1, f2⟩ := isprime_facts m m2
+              have hr := rootExact_true hrr a3 m ha3 (by omega) m4
+              refine isPP_conclude u y (iroot m a3) m n3 f1 (Nat.dvd_of_mod_eq_zero (m3 n3 rfl)) ?_
+                (by rw [hy, ← hr])
+              intro hneg
+              have : decide (u < 0) = true := by simpa using hneg
+              rw [this] at m1
+              exact f2 (by simp at m1; omega)
 
 
 end Mpir.Root
